@@ -103,7 +103,7 @@ func c14Build(tier string) []c14Resp {
 	return set
 }
 
-var c14Kinds = []string{"eof", "eof-with-data", "reset", "timeout", "transient", "transient-eof"}
+var c14Kinds = []string{"eof", "eof-with-data", "reset", "timeout", "transient", "transient-eof", "eof-gap"}
 
 const c14WriteRuns = 400
 
@@ -133,7 +133,7 @@ func (c14) Gen(r *Rand, idx int, tier string) interface{} {
 			if idx%13 == 7 {
 				p.PollMs = []int{1, 50, 300}[(idx/13)%3]
 			}
-			if idx%11 == 5 && !strings.HasPrefix(p.Kind, "transient") {
+			if idx%11 == 5 && !strings.HasPrefix(p.Kind, "transient") && p.Kind != "eof-gap" {
 				// legal: a connection that ended is reported at once (not combined with a transient zero-byte EOF,
 				// which a timeout of zero declares to be the end although the stream goes on)
 				p.ReadTimeoutS = 0
@@ -146,7 +146,7 @@ func (c14) Gen(r *Rand, idx int, tier string) interface{} {
 			if idx%4 == 3 {
 				p.QueueSize = []int{1, 2, -1}[(idx/4)%3] // -1: unbuffered
 			}
-			if idx%6 == 1 && p.Kind != "eof-with-data" && !strings.HasPrefix(p.Kind, "transient") {
+			if idx%6 == 1 && p.Kind != "eof-with-data" && !strings.HasPrefix(p.Kind, "transient") && p.Kind != "eof-gap" {
 				p.FailDelayMs = []int{500, 1000, 2000, 10000}[(idx/6)%4] * p.ReadTimeoutS / 2
 			}
 			return p
@@ -223,7 +223,7 @@ func (c14) Run(plan interface{}, schedSeed uint64, replay []simrt.Choice, lenien
 		term = simrt.TermTimeout
 	}
 	cfg := simrt.Config{Seed: schedSeed, Strategy: "uniform", ColdQueueLocks: true, EOFReadCostMs: p.EOFCostMs, MaxSteps: 250000, Replay: replay, Lenient: lenient, KeepLog: keepLog}
-	if p.Kind == "transient" || p.Kind == "transient-eof" {
+	if p.Kind == "transient" || p.Kind == "transient-eof" || p.Kind == "eof-gap" {
 		return c14RunTransient(p, v, cfg, base, pk, wire, drain)
 	}
 	got := runResp(cfg, respDelivery{Packets: pk, TermAt: p.K, TermKind: term, TermWithData: withData, Async: p.Async, TermDelay: time.Duration(p.FailDelayMs) * time.Millisecond},
@@ -496,7 +496,7 @@ func pktLens(pk [][]byte) []int {
 // up (a prefix, then errors) or recover (the whole response); it may not deliver anything the server did not send.
 func c14RunTransient(p *c14Plan, v *Verdict, cfg simrt.Config, base *respResult, pk [][]byte, wire []byte, drain time.Duration) (*Verdict, *simrt.Outcome) {
 	got := runResp(cfg, respDelivery{Packets: pk, TermAt: -1, Async: p.Async},
-		respClient{QueueSize: c14Queue(p), ReadTimeoutS: p.ReadTimeoutS, DrainFor: drain, ReadSizes: c14ReadSizes(p.ReadSize, len(wire)), MaxErrs: 10, Transients: []int{p.K}, TransientEOF: p.Kind == "transient-eof"})
+		respClient{QueueSize: c14Queue(p), ReadTimeoutS: p.ReadTimeoutS, DrainFor: drain, ReadSizes: c14ReadSizes(p.ReadSize, len(wire)), MaxErrs: 10, Transients: []int{p.K}, TransientEOF: p.Kind == "transient-eof" || p.Kind == "eof-gap", TransientFor: c14Gap(p)})
 	out := got.Out
 	StdOutcome(v, base.Out)
 	StdOutcome(v, out)
@@ -518,6 +518,9 @@ func c14RunTransient(p *c14Plan, v *Verdict, cfg simrt.Config, base *respResult,
 		what = "(0, io.EOF)"
 	}
 	where := fmt.Sprintf("one read fails with "+what+" after %d of %d wire bytes (packets %v) of %v, then the stream goes on", p.K, len(wire), pktLens(pk), p.Entries)
+	if p.Kind == "eof-gap" {
+		where = fmt.Sprintf("every read returns (0, io.EOF) for %v (read timeout %ds) after %d of %d wire bytes (packets %v) of %v, then the stream goes on", c14Gap(p), p.ReadTimeoutS, p.K, len(wire), pktLens(pk), p.Entries)
+	}
 	if out.Budget {
 		v.Budget = false
 		v.Violate("livelock", "the client spins after a transient read error", "%s: after %d scheduler steps the client is still busy", where, out.Steps)
@@ -530,7 +533,10 @@ func c14RunTransient(p *c14Plan, v *Verdict, cfg simrt.Config, base *respResult,
 	if !isPrefix(have, B) {
 		v.Violate("wrong-packages", "packages the server did not send after a transient read error", "%s: delivered packages are not a prefix of the response: %s", where, firstDiff(B, have))
 	}
-	if out.FaultFired["read-transient-error"] > 0 {
+	if out.FaultFired["read-eof-gap"] > 0 {
+		v.Probe("eof-gap-fired")
+	}
+	if out.FaultFired["read-transient-error"] > 0 || out.FaultFired["read-eof-gap"] > 0 {
 		v.Probe("transient-error-fired")
 		if len(errsOnly(got.Recs)) == 0 && len(have) < len(B) {
 			v.Violate("no-error", "neither the whole response nor an error after a transient read error", "%s: %d of %d packages delivered and no error reported", where, len(have), len(B))
@@ -550,6 +556,23 @@ func c14RunTransient(p *c14Plan, v *Verdict, cfg simrt.Config, base *respResult,
 	}
 	v.Sample = map[string]interface{}{"kind": p.Kind, "k": p.K, "wire": len(wire), "delivered": len(have), "errors": len(errsOnly(got.Recs))}
 	return v, out
+}
+
+// c14Gap: how long the (0, io.EOF) reads of kind eof-gap last: longer than the read timeout in two cases of three
+// (the library reports the failure - and must not read on in the middle of the packet afterwards), shorter in the third
+// (its retry loop recovers).
+func c14Gap(p *c14Plan) time.Duration {
+	if p.Kind != "eof-gap" {
+		return 0
+	}
+	rt := time.Duration(p.ReadTimeoutS) * time.Second
+	switch p.K % 3 {
+	case 0:
+		return rt/2 + 100*time.Millisecond
+	case 1:
+		return rt + 1200*time.Millisecond
+	}
+	return 3*rt + 700*time.Millisecond
 }
 
 func c14Queue(p *c14Plan) int {
@@ -698,5 +721,5 @@ func c14RunWrite(p *c14Plan, schedSeed uint64, replay []simrt.Choice, lenient, k
 
 // RequiredProbes: a batch in which one of these never fired explored nothing of that kind (exit 2, not a pass).
 func (c14) RequiredProbes() []string {
-	return []string{"kind:eof", "kind:eof-with-data", "kind:reset", "kind:timeout", "kind:transient", "kind:transient-eof", "kind:write"}
+	return []string{"kind:eof", "kind:eof-with-data", "kind:reset", "kind:timeout", "kind:transient", "kind:transient-eof", "kind:eof-gap", "eof-gap-fired", "kind:write"}
 }
